@@ -326,6 +326,13 @@ def rule_aggregation(ctx):
                    "bus demand is stored per unique bus of the grouped sum" if ok else
                    f"`{norm(st, 70)}` stores per-element values at a non-unique bus index: elements sharing a bus overwrite each other", fi.loc(st))
     rule_shortcut_guard(ctx)
+    rule_zip_sibling(ctx)
+
+
+def rule_zip_sibling(ctx):
+    import ast
+    from ppsa.astutil import norm
+    fi = ctx.repo.func("pandapower.build_bus:_calc_pq_elements_and_add_on_ppc")
     # the four ZIP coefficient columns are computed in the same way
     R2 = "ZIP-SIBLING"
     ctx.rule(R2, "the per-bus ZIP coefficients CID_P, CZD_P, CID_Q, CZD_Q are four instances of one formula (mean over the active "
